@@ -567,6 +567,12 @@ func prGen(kind string) func(c *core.Ctx) {
 			{"m\n", map[string]string{"m": "(echo $(a\nb))"}}, {"echo $(( $(m) ))\n", map[string]string{"m": "a\nb"}}, {"m\n", map[string]string{"m": "for x in ${y:-a\nb}; do c; done"}},
 			{"m\n", map[string]string{"m": "case 'a\nb' in x) c;; esac"}}, {"m\n", map[string]string{"m": "while a >'f\ng'; do b; done"}}, {"m\n", map[string]string{"m": "echo $({ a\n})"}},
 			{"m\n", map[string]string{"m": "if a; then b; fi"}}, {"m; n\n", map[string]string{"m": "a |\nb", "n": "c &&\nd"}},
+			// one part of a construct cannot go on one line, the others can
+			{"v\n", map[string]string{"v": "if a; then b; elif c \"x\ny\"; then d; fi"}}, {"v\n", map[string]string{"v": "if a; then b; elif {\nc\n}; then d; fi"}},
+			{"v\n", map[string]string{"v": "if a; then b; elif c; then d 'x\ny'; fi"}}, {"v\n", map[string]string{"v": "if a; then b; else c \"x\ny\"; fi"}}, {"v\n", map[string]string{"v": "if a 'x\ny'; then b; elif c; then d; else e; fi"}},
+			{"v\n", map[string]string{"v": "if a; then b; elif c; then d; elif e $(f\ng); then h; fi"}}, {"v\n", map[string]string{"v": "while a; b 'x\ny'; do c; done"}}, {"v\n", map[string]string{"v": "until a; do b; c \"x\ny\"; done"}},
+			{"v\n", map[string]string{"v": "for i in a 'x\ny'; do b; done"}}, {"v\n", map[string]string{"v": "case x in a) b;; c) d 'x\ny';; esac"}}, {"v\n", map[string]string{"v": "case x in a) b;; 'x\ny') d;; esac"}}, {"v\n", map[string]string{"v": "f() { a; b 'x\ny'; }"}},
+			{"v\n", map[string]string{"v": "{ a; } >'x\ny'"}}, {"v\n", map[string]string{"v": "a | b 'x\ny' | c"}}, {"v\n", map[string]string{"v": "a && b || c \"x\ny\""}}, {"v\n", map[string]string{"v": "( a; b ) 2>\"x\ny\""}},
 			// arithmetic out of an alias value: parts that would be scanned differently without the blank between them
 			{"m\n", map[string]string{"m": "(( $a 1 ))"}}, {"m\n", map[string]string{"m": "echo $(( $a b ))"}}, {"m\n", map[string]string{"m": "(( $ $(a) ))"}}, {"m\n", map[string]string{"m": "(( $ $a ))"}},
 			{"m\n", map[string]string{"m": "(( $ ${a} ))"}}, {"m\n", map[string]string{"m": "(( $a+1 ))"}}, {"m\n", map[string]string{"m": "echo $(( ${a}1 $b _c $# 1 $1 0 ))"}}, {"m\n", map[string]string{"m": "(( 1 $ 2 ))"}},
